@@ -28,7 +28,7 @@ class C12(Check):
     rule = (
         "cases: stacks of 0..3 middlewares of kinds pass-through / short-circuit (answering calls only; answering every element incl. notifications; returning 'no response' for every element incl. calls) / request-rewriting (other method and params, same id) / "
         "response-rewriting x error-handler tables (none, generic only, per-code only, both, up to 3 handlers per key; kinds identity / "
-        "annotate / replace-by-another-code / change the received error's code in place / the same callable registered again under the same or another key; keys incl. the replacement codes themselves) x library or application (behaviour-preserving subclasses) message classes on the dispatcher x middlewares passed as list / tuple / one-shot generator, handler lists as list / tuple x request documents over the 15-method registry "
+        "annotate / replace-by-another-code / change the received error's code in place / the same callable registered again under the same or another key; keys incl. the replacement codes themselves) x library or application (behaviour-preserving subclasses) message classes on the dispatcher x middlewares passed as list / tuple / one-shot generator, handler lists as list / tuple, the table's keys written generic-first or codes-first x request documents over the 15-method registry "
         "(successes, every failure class incl. an internal error raised outside the method body by a class based view's constructor, notifications, failing notifications, batches, rejected documents, non-JSON) x scripted method "
         "failures x sync / async dispatcher. Oracle: the reference server extended with the stack semantics predicts the response "
         "document, the executions and the exact event log (middleware enter events with method / id / params / context identity, handler "
@@ -58,8 +58,9 @@ class C12(Check):
         s_hs = st.lists(s_h, max_size=3)
         s_table = st.one_of(
             st.none(),
-            st.builds(lambda g, cs: {'generic': g, 'codes': [[c, h] for c, h in cs]}, s_hs,
-                      st.lists(st.tuples(st.sampled_from(HANDLER_CODES), s_hs), max_size=3, unique_by=lambda t: t[0])),
+            st.builds(lambda g, cs, ko: {'generic': g, 'codes': [[c, h] for c, h in cs], 'key_order': ko}, s_hs,
+                      st.lists(st.tuples(st.sampled_from(HANDLER_CODES), s_hs), max_size=3, unique_by=lambda t: t[0]),
+                      st.sampled_from(['generic-first', 'codes-first'])),
         )
 
         def for_kind(kind: str):
@@ -89,6 +90,9 @@ class C12(Check):
                  'text': t([{'jsonrpc': '2.0', 'id': 1, 'method': 'echo', 'params': [1]}, {'jsonrpc': '2.0', 'id': 2, 'method': 'nope'}])},
                 {'dispatcher': kind, 'behaviours': {}, 'middlewares': [], 'custom_classes': True,
                  'handlers': {'generic': [{'kind': 'mutate'}], 'codes': [[-32601, [{'kind': 'annotate'}]], [stack.REPLACE_BASE + 50, [{'kind': 'replace'}]]]},
+                 'text': t([{'jsonrpc': '2.0', 'id': 1, 'method': 'nope'}, {'jsonrpc': '2.0', 'id': 2, 'method': 'boom'}])},
+                {'dispatcher': kind, 'behaviours': {}, 'middlewares': [{'kind': 'pass'}],
+                 'handlers': {'generic': [{'kind': 'annotate'}], 'codes': [[-32601, [{'kind': 'replace'}]], [-32000, [{'kind': 'replace'}]]], 'key_order': 'codes-first'},
                  'text': t([{'jsonrpc': '2.0', 'id': 1, 'method': 'nope'}, {'jsonrpc': '2.0', 'id': 2, 'method': 'boom'}])},
                 {'dispatcher': kind, 'behaviours': {}, 'middlewares': [{'kind': 'short'}, {'kind': 'pass'}], 'handlers': None,
                  'text': t([{'jsonrpc': '2.0', 'id': 1, 'method': 'nope'}, {'jsonrpc': '2.0', 'method': 'echo', 'params': [1]}])},
